@@ -51,11 +51,14 @@ def validate(chk, scen, results, label='correspondence:lifecycle'):
 
 
 def run(chk):
+    import time
+    t0 = time.time()
     chk.audit(PROPS)
+    t1 = time.time()
     sys.path.insert(0, str(core.HARNESS))
     scen = importlib.import_module(SCEN)
     big = chk.tier == 'thorough'
-    n = 700 if not big else 30000
+    n = 560 if not big else 30000
     cases = scen.boundary_cases()
     cases += [scen.gen_case(chk.rng, chk.tier, chk.rng.choice(['', 'residual', 'start'])) for _ in range(n)]
     results = chk.run_cases(SCEN, cases, sched=True)
@@ -92,6 +95,7 @@ def run(chk):
         chk.account(scen, res2, 'E1-detsched')
         chk.collect_monitors(res2, {'C11'}, keyfn)
         chk.notes.append(f'correspondence broke on {len(chk.corr_breaks)} cases; escalated search over {len(more)} more cases')
+    t2 = time.time()
     # ---- E4: trees with ProcessServlets, real processes (OS schedule, sampled) ----------------------------
     scen_proc = importlib.import_module('scen_lifecycle_proc')
     pcases = scen_proc.gen_cases(chk.rng, chk.tier)
@@ -104,6 +108,7 @@ def run(chk):
         pd[kk] = pd.get(kk, 0) + 1
         pd['max_t_exit_s'] = max([pd.get('max_t_exit_s', 0.0)] + list(res.get('t_exit') or []))
     chk.cov['distribution']['E4'] = pd
+    chk.notes.append(f'wall: lean audit {t1 - t0:.1f}s, E1 {t2 - t1:.1f}s, E4 {time.time() - t2:.1f}s')
     chk.add_obligation('correspondence', 'lifecycle: start order/error/survivors == startServer; every queue put/get and join of '
                        'the real Server replayed through Lifecycle.step (E1, thread servlets)', not chk.corr_breaks)
     chk.cov['rule'] = ('cases = fixed boundary set (8 tree shapes x every failing worker position) + random (servlet tree of depth<=2 '
